@@ -100,8 +100,22 @@ def build(layout: dict, evs: list[type]) -> tuple[list[type], list[Any]]:
                 ns["__init__"] = __init__
             cls = type(f"Owner{ci}", bases, ns)
         classes.append(cls)
-    insts = [classes[i["cls"]](i.get("val", 0)) for i in layout["instances"]]
+    # instances declared as copies of another one are created later (copy.copy, after the
+    # original's signals have been touched)
+    insts = [None if i.get("copy_of") is not None else classes[i["cls"]](i.get("val", 0)) for i in layout["instances"]]
     return classes, insts
+
+
+def make_copies(layout: dict, insts: list, upto: int | None = None) -> None:
+    import copy as _copy
+
+    for k, spec in enumerate(layout["instances"]):
+        if insts[k] is None and spec.get("copy_of") is not None and (upto is None or k == upto):
+            src = insts[spec["copy_of"]]
+            if src is None:
+                make_copies(layout, insts, spec["copy_of"])
+                src = insts[spec["copy_of"]]
+            insts[k] = _copy.copy(src)
 
 
 # =====================================================================================
@@ -131,9 +145,13 @@ def _layout(d: D, prop: str) -> dict:
         classes.append({"base": base, "sigs": sigs, "owner": owner})
     ninst = d.int(1, 3)
     instances = []
-    for _ in range(ninst):
+    for k in range(ninst):
         ci = d.int(0, ncls - 1)
-        instances.append({"cls": ci, "val": d.int(0, 1)})
+        if k > 0 and d.pct(20 if prop == "C11" else 8):
+            j = d.int(0, k - 1)
+            instances.append({"cls": instances[j]["cls"], "val": instances[j]["val"], "copy_of": j})
+        else:
+            instances.append({"cls": ci, "val": d.int(0, 1)})
     lay = {"classes": classes, "instances": instances}
     if not channels_of(lay):
         classes[instances[0]["cls"]]["sigs"]["alpha"] = 0
@@ -172,11 +190,13 @@ def cases(draw: Any, prop: str, tier: str) -> dict:
     next_sid = 0
     used_sizes: set[int] = set()
     payload = 0
+    dead = [0]
     for _ in range(nops):
         live = [s for s in streams.values() if s.active]
         w = {"open": 22 if len(live) < 4 else 4, "dispatch": 38, "consume": 14 if live else 0, "leave": 8 if live else 0,
              "aclose": 3 if live and prop == "C10" else 0, "wrong": 5 if prop == "C11" else 2,
-             "classuse": 6 if prop == "C11" else 1, "wait": 6 if prop == "C10" else 2, "burst": 8 if prop == "C10" else 0}
+             "classuse": 6 if prop == "C11" else 1, "wait": 6 if prop == "C10" else 2, "burst": 8 if prop == "C10" else 0,
+             "reincarnate": 5}
         kind = d.weighted(list(w.items()))
         if kind == "open":
             k = d.weighted([(1, 55), (2, 30), (3, 15)])
@@ -195,7 +215,7 @@ def cases(draw: Any, prop: str, tier: str) -> dict:
             used_sizes.add(maxq)
             ops.append({"op": "open", "sid": next_sid, "chans": [list(c) for c in cs], "filter": fid, "maxq": maxq,
                         "api": "method" if len(cs) == 1 and d.bool() else "func"})
-            streams[next_sid] = _MStream(next_sid, cs, fid, maxq)
+            streams[next_sid] = _MStream(next_sid, [tuple(c) for c in cs], fid, maxq)
             next_sid += 1
         elif kind in ("dispatch", "burst"):
             n = 1 if kind == "dispatch" else d.int(2, 6)
@@ -225,16 +245,25 @@ def cases(draw: Any, prop: str, tier: str) -> dict:
             s = d.pick(live)
             ops.append({"op": "leave", "sid": s.sid})
             s.active = False
-            # the leave protocol dispatches a sentinel on the stream's first channel
-            if s.maxq >= 1 and not s.closed_iter:
+            # the leave protocol dispatches a sentinel on the stream's first live channel
+            alive = [tuple(c) for c in s.chans if c[0] >= 0]
+            if s.maxq >= 1 and not s.closed_iter and alive:
                 for o in live:
-                    if o is not s and tuple(s.chans[0]) in [tuple(c) for c in o.chans] and len(o.fifo) < o.maxq:
+                    if o is not s and alive[0] in [tuple(c) for c in o.chans] and len(o.fifo) < o.maxq:
                         o.fifo.append((0, SENTINEL))
         elif kind == "aclose":
             s = d.pick(live)
             if not s.closed_iter:
                 ops.append({"op": "aclose", "sid": s.sid})
                 s.closed_iter = True
+        elif kind == "reincarnate":
+            # the owner dies (its subscribers stay) and a new instance takes its place - very
+            # likely at the same address
+            i = d.int(0, len(lay["instances"]) - 1)
+            ops.append({"op": "reincarnate", "inst": i})
+            dead[0] += 1
+            for s in streams.values():
+                s.chans = [((-dead[0], c[1]) if c[0] == i else c) for c in s.chans]
         elif kind == "wrong":
             ops.append({"op": "wrong", "ch": list(d.pick(chans))})
         elif kind == "classuse":
@@ -329,6 +358,9 @@ class SeqInterp:
         # ---- first accesses in the generated order; identity and distinctness ----------
         bound: dict[tuple, Any] = {}
         for i, a in case["first_access"]:
+            if insts[i] is None:
+                make_copies(lay, insts, i)
+                self.labels.add("copied-owner")
             try:
                 bound[(i, a)] = getattr(insts[i], a)
             except Exception as exc:
@@ -355,10 +387,13 @@ class SeqInterp:
             if self.diverged:
                 break
 
+        make_copies(lay, insts)
         streams: dict[int, dict] = {}
         serial = [0]
         waiters: list[dict] = []
         live_events: dict[int, Any] = {}
+        retired: list[Any] = []  # bound signals of owners that are gone (users may keep them)
+        dead = [0]
 
         def model_dispatch(ch: tuple, ev_serial: int, k: int) -> list[int]:
             """Apply a dispatch to the per-subscriber FIFOs; returns queue sizes that overflow."""
@@ -475,8 +510,9 @@ class SeqInterp:
                     await _force_close(s)
                     return
                 s["fifo"].clear()
-                if s["maxq"] >= 1:
-                    do_dispatch(s["chans"][0], SENTINEL, False)
+                alive = [c for c in s["chans"] if c[0] >= 0]
+                if s["maxq"] >= 1 and alive:
+                    do_dispatch(alive[0], SENTINEL, False)
                     if self.diverged or not await read(s, 1, "leave-sentinel"):
                         await _force_close(s)
                         return
@@ -535,6 +571,41 @@ class SeqInterp:
                     except Exception as exc:
                         self.disc("delivery", "aclose-raises", f"closing the iterator of stream {s['sid']} raised {short_exc(exc)}")
                     self.trace.append(["aclose", op["sid"]])
+                elif kind == "reincarnate":
+                    i = op["inst"]
+                    old_id = id(insts[i])
+                    dead[0] += 1
+                    for c in chans:
+                        if c[0] == i:
+                            sig_evt[(-dead[0], c[1])] = sig_evt[c]
+                    for st_ in streams.values():
+                        st_["chans"] = [((-dead[0], c[1]) if c[0] == i else c) for c in st_["chans"]]
+                    for wt in waiters:
+                        wt["chans"] = [((-dead[0], c[1]) if c[0] == i else c) for c in wt["chans"]]
+                    for key in [k for k in bound if k[0] == i]:
+                        retired.append(bound.pop(key))
+                    for es in [es for es, ev in live_events.items() if getattr(ev, "source", None) is insts[i]]:
+                        del live_events[es]
+                    ref = weakref.ref(insts[i])
+                    spec = lay["instances"][i]
+                    insts[i] = None
+                    # (events still buffered in - or last yielded by - a live stream reference their
+                    # source, so the old owner may legitimately live on; collectability is checked
+                    # at the end of the case)
+                    if ref() is None:
+                        self.labels.add("owner-collected-mid-history")
+                    insts[i] = classes[spec["cls"]](spec.get("val", 0))
+                    if id(insts[i]) == old_id:
+                        self.labels.add("address-reused")
+                    for (ci, ca) in [c for c in chans if c[0] == i]:
+                        sig = getattr(insts[i], ca)
+                        if any(sig is r for r in retired) or any(sig is b for b in bound.values()):
+                            self.both("stale-bound-signal-reused", f"a NEW owner instance (slot {i}) got the bound signal {ca!r} of a dead or "
+                                      f"other owner (address reused: {id(insts[i]) == old_id})")
+                            self.diverged = True
+                            break
+                        bound[(ci, ca)] = sig
+                    self.trace.append(["reincarnate", i, id(insts[i]) == old_id])
                 elif kind == "wrong":
                     ch = tuple(op["ch"])
                     e_idx = sig_evt[ch]
@@ -727,6 +798,10 @@ class ConcInterp(SeqInterp):
         classes, insts = build(lay, evs)
         chans = channels_of(lay)
         sig_evt = {(i, a): effective_sigs(lay, lay["instances"][i]["cls"])[a] for i, a in chans}
+        for i, a in chans:
+            if insts[i] is not None:
+                getattr(insts[i], a)
+        make_copies(lay, insts)
         ops = case["ops"]
         cons = [dict(c, idx=i, chans=[tuple(x) for x in c["chans"]], subscribed=False, left=False, received=[], pulled=0,
                      warned=[], delivered=[]) for i, c in enumerate(ops["consumers"])]
